@@ -86,6 +86,12 @@ class Executor:
                 self.addr.set_layout(m['layout'][0], m['layout'][1])
             self.addr.install(self.mods)
             self.notes += self.addr.notes
+        self.idseam = None
+        if m.get('addr') == 'sim' and m.get('idseam', True):
+            # direct uses of id() on propka objects: simulated allocator that
+            # recycles the addresses of dead objects (legal, rare natively)
+            self.idseam = seams.IdSeam(m['layout'][1] * 31 + 7)
+            self.idseam.install()
         self.files = None
         if m.get('filelayer', True):
             self.files = seams.FileLayer()
@@ -771,6 +777,11 @@ class Executor:
             self.ref.close()
         if self.clock is not None:
             self.stats['days'] = self.clock.days_covered
+        if self.idseam is not None:
+            self.idseam.uninstall()
+            # opportunities / addresses of dead objects actually handed out again
+            self.stats['faults_armed']['id_address_reuse'] = self.idseam.assigned
+            self.stats['faults_fired']['id_address_reuse'] = self.idseam.recycled
         from sim import record
         return {
             'seed': self.job.get('seed'),
